@@ -23,7 +23,7 @@ def tag_cfg(rng):
         s = {"constructor": "fx.NewA", "arguments": [nm]}
         ts = rng.sample(tags, rng.randint(0, len(tags)))
         if ts:
-            s["tags"] = [t if rng.random() < 0.3 else {"name": t, "priority": rng.choice([0, 1, -1, 5, 5, 5, 100, -100, 2**31, -2**31])} for t in ts]
+            s["tags"] = [t if rng.random() < 0.3 else gen.tag_obj(rng, t, rng.choice([0, 1, -1, 5, 5, 5, 100, -100, 2**31, -2**31])) for t in ts]
         if rng.random() < 0.3:
             s["calls"] = [["Call1", ["c"]]] + ([["With1", [], True]] if rng.random() < 0.5 else [])
         svcs[nm] = s
